@@ -852,6 +852,8 @@ def run(chk):
     chk.guard(rule_r3, chk)
     chk.guard(rule_r4, chk)
     chk.guard(rule_r5, chk)
+    from .. import args as _args
+    chk.guard(_args.apply, chk, "C02-R90", {'aldi', 'jacobians', 'period_by_period', 'stacked_time', 'steadiers'}, 1)
     chk.assumptions = [
         "user-supplied context functions are differentiated by the finite-difference wrapper (R4), not by rules",
         "placement of individual cells for a given model depends on run-time maps; only the order/offset algebra is decided",
